@@ -42,8 +42,7 @@ def run_os(prop, tier, seed, runs, builds, own_guards, crash_decisive=True, grou
     for (rc, o), tr in zip(res, traces):
         if not os.path.exists(tr[0]):
             raise vlib.InfraError("driver failed rc=%d: %s" % (rc, o[-2000:]))
-        if rc == 124:
-            raise vlib.InfraError("driver timed out: %s" % " ".join(tr[3]["args"]))
+    vlib.check_complete(V, prop, res, traces, what=lambda t: "%s.%s" % (t[2], t[1]))
     log("  ran %d implementation executions in %.1fs" % (len(jobs), time.time() - t0))
 
     groups = [traces[i:i + group] for i in range(0, len(traces), group)]
